@@ -2,8 +2,8 @@
    The dispatch model (Model/C20_Inertia.v) mirrors spatialvector.py as it is; on every run it is evaluated
    in Coq on every cell of the finite table and compared with the implementation's outcome on that cell.
    Here: the model agrees with what the property asks for, for ALL lengths (case analysis), the enumerated
-   table by vm_compute, and the two places where the faithful model violates the property
-   (_refuted + _partial). *)
+   table by vm_compute, and the one place where the faithful model violates the property
+   (_refuted + _partial: an acceleration operand of cross). *)
 From Coq Require Import List Bool Arith Lia.
 From SM Require Import Model.C20_Inertia.
 Import ListNotations.
@@ -104,13 +104,14 @@ Proof. reflexivity. Qed.
 Print Assumptions C20_se3mul_keeps_class.
 
 (* ---------------------------------------------------------------- inertia + inertia
-   FULL STATEMENT (false of the faithful model): forall b, iadd_model b = iadd_expected b
-   (two inertias add to their matrix sum -- see C20_inertia_sum_is_composite in C20.v for why the matrix sum is
-   the composite body).  The code evaluates `left.I`, which does not exist. *)
-Theorem C20_inertia_add_refuted : exists b, iadd_model b <> iadd_expected b /\ iadd_model b = IRaise AttributeError.
-Proof. exists true. split; [discriminate|reflexivity]. Qed.
-Print Assumptions C20_inertia_add_refuted.
+   two inertias are accepted and give their sum (the value is inertia_add = matrix sum, see C20_inertia.v:
+   C20_inertia_add_is_sum, C20_inertia_sum_is_composite); anything else is rejected with TypeError.
+   (Before /repo commit 2cebac9 the code evaluated `left.I` and always raised; the _refuted/_partial pair that stood
+   here is replaced by the full statement.) *)
+Theorem C20_inertia_add : forall b, iadd_model b = iadd_expected b.
+Proof. intros [|]; reflexivity. Qed.
+Print Assumptions C20_inertia_add.
 
-Theorem C20_inertia_add_partial : forall b, b = false -> iadd_model b = iadd_expected b.
-Proof. intros b ->. reflexivity. Qed.
-Print Assumptions C20_inertia_add_partial.
+Theorem C20_inertia_add_cases : iadd_model true = ISum /\ iadd_model false = IRaise TypeError.
+Proof. split; reflexivity. Qed.
+Print Assumptions C20_inertia_add_cases.
